@@ -900,16 +900,35 @@ pub fn eval_record(args: &[String]) {
     // run the cases: on one thread, or spread over `--threads` threads that evaluate concurrently, each on its own contexts (C16)
     let nthreads = arg_u64(args, "--threads", 1) as usize;
     CONCURRENT.store(nthreads > 1, std::sync::atomic::Ordering::SeqCst);
+    // with several threads the programs go through execute(text), so that tokenizer and parser run concurrently as well; which
+    // programs have a text form that parses back to the very tree is settled beforehand, on this thread alone
+    let texts: Vec<Option<String>> = cases
+        .iter()
+        .map(|r| {
+            if nthreads <= 1 {
+                return None;
+            }
+            let mut scratch = Context::new();
+            let mut hidden = 0u32;
+            let ast = build_ast(&r["prog"], &mut scratch, &mut hidden);
+            let text = ast.expr();
+            let t1 = text.clone();
+            let same = guarded(move || parse_expression(leak(&t1)).map(|a| crate::astjson::ast_to_json(&a)).ok()).ok().flatten() == Some(crate::astjson::ast_to_json(&ast));
+            if hidden == 0 && same { Some(text) } else { None }
+        })
+        .collect();
+    let texts = Arc::new(texts);
     let cases = Arc::new(cases);
     let results: Arc<Mutex<Vec<Option<J>>>> = Arc::new(Mutex::new(vec![None; cases.len()]));
     let mut hs = Vec::new();
     for k in 0..nthreads {
         let cases = cases.clone();
         let results = results.clone();
+        let texts = texts.clone();
         hs.push(std::thread::spawn(move || {
             let mut i = k;
             while i < cases.len() {
-                let o = run_case(&cases[i], true);
+                let o = run_case_src(&cases[i], true, None, texts[i].as_deref());
                 let mut rec = cases[i].clone();
                 rec["obs"] = json!({"st": o.st, "val": o.val, "ctx": o.ctx, "log": o.log, "poisoned": o.poisoned, "followups": o.followups});
                 results.lock().unwrap()[i] = Some(rec);
